@@ -474,7 +474,7 @@ func c01Queued(r *vlib.Run) {
 		gdir := filepath.Join(dir, fmt.Sprintf("g%d", round))
 		os.MkdirAll(gdir, 0755)
 		for j := range contents {
-			c, _ := c01GenContent(rng, 1024*1024, r.N(300*1024, 1024*1024), false)
+			c, _ := c01GenContent(rng, 1024*1024, 300*1024, false) // (far below MaxLineLength: no line long enough for the recorded long-line warning)
 			c = append(bytes.TrimRight(c, "\n"), '\n')
 			contents[j] = c
 			paths[j] = filepath.Join(gdir, fmt.Sprintf("q%d.log", j))
